@@ -7,7 +7,7 @@ import shutil
 from . import common, pipeline, scenarios as S, tla
 from . import d_specclass as D
 
-MC_PROPS = ["InvTypeOK"], ["PropAtomic", "PropSetAttrIsWith", "PropCowEqualsInplace", "PropIfFalse"]
+MC_PROPS = ["InvTypeOK", "InvFresh"], ["PropAtomic", "PropSetAttrIsWith", "PropCowEqualsInplace", "PropIfFalse"]
 
 
 def mc_scenario(rep, tmp, name, maxlen=2, workers=8):
